@@ -117,7 +117,15 @@ func NewSubscriberWithConcurrencyMode[T any](destination Observer[T], mode Concu
 func newSubscriberImpl[T any](mode ConcurrencyMode, mu xsync.Mutex, backpressure Backpressure, destination Observer[T]) Subscriber[T] {
 	// Protect against multiple encapsulation layers.
 	if subscriber, ok := destination.(Subscriber[T]); ok {
-		return subscriber
+		// Reusing a subscriber is only sound when it serializes producers: an
+		// unsafe subscriber created downstream must not stand in for the safe
+		// subscriber of an observable that is fed from several goroutines
+		// (pass-through operators such as StartWith, Defer or TapOnSubscribe hand
+		// their destination upstream).
+		impl, isImpl := subscriber.(*subscriberImpl[T])
+		if mode == ConcurrencyModeUnsafe || !isImpl || impl.mode != ConcurrencyModeUnsafe {
+			return subscriber
+		}
 	}
 
 	subscriber := &subscriberImpl[T]{
